@@ -55,6 +55,9 @@ pub enum MsgToServer {
         text: String,
         version: i32,
     },
+    DidClose {
+        url: Url,
+    },
     DidChangeConfiguration(ServerConfigItem),
     WillRenameFile {
         old_url: Url,
@@ -184,6 +187,7 @@ impl Server {
                         self.did_change(&url, &text, version);
                         self.latest_change = Some((url, text, version));
                     }
+                    MsgToServer::DidClose { url } => self.did_close(&url),
                     MsgToServer::DidChangeConfiguration(x) => self.config.set(x),
                     MsgToServer::WillRenameFile { old_url } => self.on_remove(old_url),
                     MsgToServer::DidRenameFile { new_url } => self.did_rename_files(new_url),
@@ -280,6 +284,41 @@ impl Server {
             self.on_change(&metadata.project.name, url, text, version);
         } else {
             self.on_change("", url, text, version);
+        }
+    }
+
+    /// The editor dropped its buffer, so the file on disk is the text again:
+    /// forget the buffer and let the background analysis read the file.
+    fn did_close(&mut self, url: &Url) {
+        let Some(path) = url.to_file_path() else {
+            return;
+        };
+        if self.document_map.remove(path.as_ref()).is_none() {
+            return;
+        }
+        self.parser_map.remove(path.as_ref());
+        if self.latest_change.as_ref().is_some_and(|x| &x.0 == url) {
+            self.latest_change = None;
+        }
+        // What the buffer registered goes with it, also when the file was
+        // never saved.
+        if let Some(path_id) = resource_table::get_path_id(path.to_path_buf()) {
+            Analyzer::drop_file(path_id, None);
+        }
+
+        if let Some(mut metadata) = self.get_metadata(url)
+            && !path.starts_with(&self.cache_dir)
+            && let Ok(paths) = metadata.paths::<&str>(&[], true, true)
+        {
+            self.background_done = false;
+            let total = paths.len();
+            let task = BackgroundTask {
+                metadata,
+                paths,
+                total,
+                progress: false,
+            };
+            self.background_tasks.push_back(task);
         }
     }
 
@@ -841,10 +880,14 @@ impl Server {
     }
 
     fn on_remove(&mut self, url: Url) {
-        if let Some(path) = url.to_file_path()
-            && let Some(path_id) = resource_table::get_path_id(path.to_path_buf())
-        {
-            Analyzer::drop_file(path_id, None);
+        if let Some(path) = url.to_file_path() {
+            // The buffer belongs to the removed file; a later file at the
+            // same path is a new one and has to be read from disk.
+            self.document_map.remove(path.as_ref());
+            self.parser_map.remove(path.as_ref());
+            if let Some(path_id) = resource_table::get_path_id(path.to_path_buf()) {
+                Analyzer::drop_file(path_id, None);
+            }
         }
     }
 }
